@@ -43,6 +43,8 @@ type genObs struct {
 	Msg      string `json:"msg"`
 	Gofmt    bool   `json:"gofmt"`
 	Timeout  bool   `json:"timeout"`
+	NSwitch  int    `json:"nswitch"` // occurrences of a generated rune switch (non-vacuity of -switch scenarios)
+	NInline  int    `json:"nnil"`    // nil entries in the rule table (inlined or unused rules)
 }
 
 type unit struct {
@@ -198,6 +200,8 @@ func corpusMain(args []string) error {
 		src, rerr := os.ReadFile(filepath.Join(u.dir, "g.go"))
 		u.gen.HasOut = rerr == nil && len(src) > 0
 		if u.gen.HasOut {
+			u.gen.NSwitch = bytes.Count(src, []byte("switch buffer[position] {"))
+			u.gen.NInline = bytes.Count(src, []byte("\n\t\tnil,\n")) - 1
 			if f, e := format.Source(src); e == nil && bytes.Equal(f, src) {
 				u.gen.Gofmt = true
 			}
